@@ -143,6 +143,17 @@ public:
       propToken(taint);
     }
   }
+
+#ifdef GALOIS_VERIF
+  //! verification hook: number of participating threads that currently hold
+  //! the token (the protocol circulates exactly one)
+  unsigned verifTokensHeld() {
+    unsigned n = 0;
+    for (unsigned i = 0; i < activeThreads; ++i)
+      n += data.getRemote(i)->hasToken ? 1 : 0;
+    return n;
+  }
+#endif
 };
 
 // Dijkstra style 2-pass tree termination detection
